@@ -37,13 +37,16 @@ Step(s, ev) ==
     [] ev.ev = "CallTuples"       -> Res(s, CallTuplesFails(ev), {IF ev.method = "predict" THEN "C04.suite_call_tuples_predict"
                                                                   ELSE "C04.suite_call_tuples_decision"})
     [] ev.ev = "CallPredictPairs" -> Res(s, CallPredictFails(ev), {"C04.suite_call_predict"})
-    [] ev.ev = "PredictPairs"    -> Res(s, PairsFails(s.thr, ev), PairsEx(ev))
+    [] ev.ev = "PredictPairs"    -> Res(s, PairsFails(s.thr, ev) \cup DesignatedFails(s.L, ev),
+                                        PairsEx(ev) \cup (IF "pts" \in DOMAIN ev THEN {"C04.pairs_distance_is_of_designated_points"} ELSE {}))
     [] ev.ev = "PredictTriplets" -> Res(s, TripletsFails(ev), TripletsEx)
     [] ev.ev = "PredictQuads"    -> Res(s, QuadsFails(ev), QuadsEx)
     [] ev.ev = "Triple" -> Res(s, TripleFails(s.L, ev), TripleEx)
     [] ev.ev = "Views"  -> Res(s, ViewsFails(s.L, ev), ViewsEx(ev))
     [] ev.ev = "Fit"    -> Res(IF ev.exc = "" THEN [s EXCEPT !.phase = "fitted", !.L = ev.L] ELSE s,
                                FitFails(ev), FitEx)
+    \* an operation that the property requires to succeed (named by the driver) raised instead: the history ends here
+    [] ev.ev = "Raised" -> Res(s, {ev.clause}, {ev.clause})
     [] OTHER            -> Res(s, {"TRACE.unknown_event"}, {})
 
 Init == /\ tid \in 1..Len(Traces)
